@@ -29,32 +29,39 @@ CONSTANT SUB      \* TRUE: a sub-universe (quick)
 Small == { a, A("ab"), I(1), Fl(2), Fl(4), V(1), V(2), Nil, L(<<a, b>>), L(<<V(1), b>>), L(<<a, V(2)>>), L(<<V(1), V(1)>>), PL(<<a>>, V(3)), PL(<<V(1)>>, V(1)),
            PL(<<a>>, b), C("f", <<V(1)>>), C("f", <<L(<<a, b>>)>>), C("g", <<V(1), V(2)>>), C("g", <<V(2), L(<<a>>)>>), C("g", <<V(1), V(1)>>), C(".", <<a>>), C("h", <<a, b, V(3)>>) }
 U0 == IF SUB THEN Small ELSE Univ
-VARIABLES x, y, done
-Init == x \in U0 /\ y \in U0 /\ done = FALSE
-Next == ~done /\ done' = TRUE /\ UNCHANGED <<x, y>>
-Spec == Init /\ [][Next]_<<x, y, done>>
+\* bindings made by an EARLIER goal (Vk = t before x and y meet): a variable of the pair may stand for a compound, a list, a partial
+\* list ending in another variable of the pair, or another variable - the unifier, the occurs check and the order must look through them
+NoPre == <<0, a>>
+PreSubs == IF SUB THEN { NoPre, <<1, C("f", <<V(2)>>)>>, <<3, PL(<<a>>, V(1))>> }
+           ELSE { NoPre, <<1, C("f", <<V(2)>>)>>, <<3, PL(<<a>>, V(1))>>, <<2, L(<<a, V(3)>>)>>, <<1, V(2)>>, <<2, C("g", <<V(1), V(3)>>)>> }
+VARIABLES x, y, pre, done
+Init == x \in U0 /\ y \in U0 /\ pre \in PreSubs /\ done = FALSE
+Next == ~done /\ done' = TRUE /\ UNCHANGED <<x, y, pre>>
+Spec == Init /\ [][Next]_<<x, y, pre, done>>
+Store(n) == IF pre[1] = 0 THEN Fresh(n) ELSE [Fresh(n) EXCEPT ![pre[1]] = pre[2]]
+S0 == Store(NV)
 
 Vec(bnd) == Canon(C("$", [k \in 1..NV |-> V(k)]), bnd)[3]
-Case == LET u == UnifyS(x, y, Fresh(NV))
-            oc == UnifyOC(x, y, Fresh(NV))
+Case == LET u == UnifyS(x, y, S0)
+            oc == UnifyOC(x, y, S0)
             yh == Shift(y, NV)                                  \* y renamed apart: the head of a clause
-            uh == UnifyS(x, yh, Fresh(2 * NV))
-        IN [x |-> x, y |-> y, sto |-> u.sto, ok |-> u.ok, occ |-> oc.ok,
+            uh == UnifyS(x, yh, Store(2 * NV))
+        IN [x |-> x, y |-> y, pre |-> pre, b0 |-> Vec(S0), sto |-> u.sto, ok |-> u.ok, occ |-> oc.ok,
             b |-> IF u.ok THEN Vec(u.b) ELSE <<>>,
             bocc |-> IF oc.ok THEN Vec(oc.b) ELSE <<>>,
             hsto |-> uh.sto, hok |-> uh.ok, hb |-> IF uh.ok THEN Vec(uh.b) ELSE <<>>,
-            cmp |-> Compare(x, y, Fresh(NV)), dep |-> VarOrderDependent(x, y, Fresh(NV))]
+            cmp |-> Compare(x, y, S0), dep |-> VarOrderDependent(x, y, S0)]
 Emit == done => PrintT("CASE " \o ToJson(Case))
 
 \* --- U1: laws of the unifier and of the order on this very universe ---
-Sound == LET u == UnifyS(x, y, Fresh(NV)) IN u.ok => Resolve(x, u.b) = Resolve(y, u.b)
-Symmetric == LET u == UnifyS(x, y, Fresh(NV)) w == UnifyS(y, x, Fresh(NV)) IN
+Sound == LET u == UnifyS(x, y, S0) IN u.ok => Resolve(x, u.b) = Resolve(y, u.b)
+Symmetric == LET u == UnifyS(x, y, S0) w == UnifyS(y, x, S0) IN
              /\ u.ok = w.ok /\ u.sto = w.sto
              /\ (u.ok => Variant(C("$", [k \in 1..NV |-> Resolve(V(k), u.b)]), C("$", [k \in 1..NV |-> Resolve(V(k), w.b)])))
-Idempotent == LET u == UnifyS(x, y, Fresh(NV)) IN u.ok => \A k \in 1..NV : Resolve(Resolve(V(k), u.b), u.b) = Resolve(V(k), u.b)
-FailureKeeps == LET u == UnifyS(x, y, Fresh(NV)) IN ~u.ok => u.b = Fresh(NV)
-OCAgrees == LET u == UnifyS(x, y, Fresh(NV)) oc == UnifyOC(x, y, Fresh(NV)) IN IF u.sto THEN ~oc.ok ELSE (oc.ok = u.ok /\ oc.b = u.b)
-Antisym == Compare(x, y, Fresh(NV)) = -Compare(y, x, Fresh(NV))
-EqIffIdentical == (Compare(x, y, Fresh(NV)) = 0) <=> (x = y)
-Transitive == \A z \in U0 : (Compare(x, y, Fresh(NV)) <= 0 /\ Compare(y, z, Fresh(NV)) <= 0) => Compare(x, z, Fresh(NV)) <= 0
+Idempotent == LET u == UnifyS(x, y, S0) IN u.ok => \A k \in 1..NV : Resolve(Resolve(V(k), u.b), u.b) = Resolve(V(k), u.b)
+FailureKeeps == LET u == UnifyS(x, y, S0) IN ~u.ok => u.b = S0
+OCAgrees == LET u == UnifyS(x, y, S0) oc == UnifyOC(x, y, S0) IN IF u.sto THEN ~oc.ok ELSE (oc.ok = u.ok /\ oc.b = u.b)
+Antisym == Compare(x, y, S0) = -Compare(y, x, S0)
+EqIffIdentical == (Compare(x, y, S0) = 0) <=> (Resolve(x, S0) = Resolve(y, S0))
+Transitive == \A z \in U0 : (Compare(x, y, S0) <= 0 /\ Compare(y, z, S0) <= 0) => Compare(x, z, S0) <= 0
 =============================================================================
